@@ -43,7 +43,7 @@ package bitword
 
 //@ func bitWord.ToStr returns (r)
 //@   witness-gen w = newBW([]int{1, 2, 4, 8}[r.Intn(4)]).(*bitWord)
-//@   witness-gen bs = func() []byte { o := make([]byte, len(bs)); for i := range bs { o[i] = bs[i] & w.wordMask }; return o }()
+//@   witness-gen bs = func() []byte { for i := range bs { bs[i] &= w.wordMask }; return bs }()
 //@   requires bwInv(w)
 //@   requires forall k int :: 0 <= k && k < len(bs) ==> bs[k] <= w.wordMask
 //@   ensures len(r) == (len(bs) + 8 / w.width - 1) / (8 / w.width)
